@@ -81,7 +81,7 @@ def known(finding_id: str, in_region) -> bool:
 
 # ---- lemma registry ---------------------------------------------------------------------------
 def lemma(timeout: int = 60, thorough_timeout: int | None = None, reach=("end",), tier: str = "quick",
-          funcs=(), bounds: str = "", kind: str = "sx", twin_timeout: int | None = None):
+          funcs=(), bounds: str = "", kind: str = "sx", twin_timeout: int | None = None, inductive: bool = False):
     """Attach metadata; returns the function unchanged so CrossHair analyses the original."""
 
     def deco(fn):
@@ -89,6 +89,10 @@ def lemma(timeout: int = 60, thorough_timeout: int | None = None, reach=("end",)
             name=fn.__name__, timeout=timeout, thorough_timeout=thorough_timeout or timeout * 4,
             reach=tuple(reach), tier=tier, funcs=tuple(funcs), bounds=bounds, kind=kind,
             twin_timeout=twin_timeout or timeout,
+            # inductive=True: the lemma starts from a CONSTRUCTED internal state satisfying the harness's representation invariant.  A counterexample
+            # then shows that the inductive argument fails, not that a public-API history misbehaves: reported as INCONCLUSIVE unless a lemma that
+            # drives the code through its public API is violated as well.
+            inductive=inductive,
         )
         return fn
 
